@@ -301,7 +301,9 @@ func checkURIAgainstRedirects(client Client, uri string) error {
 		for _, uriGlob := range globClient.RedirectURIGlobs() {
 			isMatch, err := doublestar.Match(uriGlob, uri)
 			if err != nil {
-				return oidc.ErrServerError().WithParent(err)
+				// a malformed pattern validates nothing: the error must not be redirected to the requested URI
+				return oidc.ErrInvalidRequestRedirectURI().WithParent(err).
+					WithDescription("The client configuration contains a malformed redirect_uri pattern.")
 			}
 			if isMatch {
 				return nil
